@@ -1,7 +1,7 @@
 #!/usr/bin/env python3
 """Confirms a sub-agent's seeded change in its scratch worktree: the patch applies, the repository's
 suite still passes with it (the two network tests aside), the demonstration passes without and
-fails with the patch. usage: confirm_mutant.py /tmp/mut[234567]/C05"""
+fails with the patch. usage: confirm_mutant.py /tmp/mut[2345678]/C05"""
 import json, os, re, subprocess, sys
 
 wt = sys.argv[1].rstrip("/")
@@ -18,7 +18,7 @@ howto = open(os.path.join(mut, "demo", "HOWTO.txt")).read()
 cmds = []
 for line in howto.splitlines():
     l = line.strip()
-    if re.match(r"^(mkdir -p|cp |cd /tmp/mut[234567])", l) and "rm -rf" not in l:
+    if re.match(r"^(mkdir -p|cp |cd /tmp/mut[2345678])", l) and "rm -rf" not in l:
         cmds.append(l)
 setup = [c for c in cmds if not c.startswith("cd ")]
 tests = [c for c in cmds if c.startswith("cd ") and "cargo" in c]
